@@ -102,6 +102,27 @@ fn first_error_cases(rng: &mut Rng, tier: Tier, out: &mut Vec<Case>) {
             }
         }
     }
+    // doubles against doubles around zero and at the extremes: IEEE ordering (-0.0 equals 0.0 and is
+    // not below it; NaN is unordered)
+    {
+        let ds = ["-0.0", "0.0", "5e-324", "-5e-324", "1.0", "-1.0", "1.7976931348623157e308", "-1.7976931348623157e308", "(0.0 / 0.0)", "(1.0 / 0.0)", "(-1.0 / 0.0)"];
+        for a in ds {
+            for b in ds {
+                for op in ["<", "<=", ">", ">=", "==", "!="] {
+                    if let Some(mut case) = eval_case_from_src(&spec, &format!("{a} {op} {b}")) {
+                        case.tags = vec!["double-ordering"];
+                        out.push(case);
+                    }
+                }
+                for src in [format!("max({a}, {b})"), format!("min({a}, {b})"), format!("[{a}, {b}].filter(x, x < 0.0)"), format!("[{a}, {b}].exists(x, x > {b})")] {
+                    if let Some(mut case) = eval_case_from_src(&spec, &src) {
+                        case.tags = vec!["double-ordering"];
+                        out.push(case);
+                    }
+                }
+            }
+        }
+    }
     // int / uint against doubles with a fraction, of either sign, next to the integer
     let ints = ["-2", "-1", "0", "1", "2", "0u", "1u", "2u", "imin", "big"];
     let dbls = ["-2.5", "-1.5", "-1.0", "-0.5", "-0.0", "0.0", "0.5", "1.0", "1.5", "2.5", "-9223372036854775808.5", "9223372036854775807.5"];
